@@ -34,6 +34,20 @@ def execOp (g : Unit → List CPt × List CPt) (op : String) (args : List String
         | none => "bad-op"
       else opVerify args
     | _ => "bad-op"
+  | "vseq" =>
+    -- several verifications in one process, one after the other: the verdict letters in order
+    String.join (args.map fun tok =>
+      match tok.splitOn ":" with
+      | [instr, h] =>
+        let r := if instr.startsWith "range" then
+            match ofHex h with
+            | some b => match verifyRange (gensOf (g ())) instr b with
+              | some v => verdict v
+              | none => "?"
+            | none => "?"
+          else opVerify [instr, h]
+        String.ofList (r.toList.take 1)
+      | _ => "?")
   | "ix" => opIx args
   | "state" => opState args
   | "new" => opNew args
@@ -72,7 +86,7 @@ partial def loop (h : IO.FS.Stream) (out : IO.FS.Stream) (cache : IO.Ref (Option
     out.putStrLn s!"{id} {checkTableFile ((← tcache.get).getD {}) bytes}"
   | id :: op :: args =>
     let needsGens := op == "rnew" || op == "rprove" || op == "rmprove" || op == "gens" ||
-      (op == "verify" && (args.headD "").startsWith "range")
+      (op == "verify" && (args.headD "").startsWith "range") || (op == "vseq" && args.any (·.startsWith "range"))
     if needsGens && (← cache.get).isNone then
       cache.set (some (concGens 256))
     let g := (← cache.get).getD ([], [])
